@@ -147,3 +147,34 @@ Definition zlist_eqb (a b : list Z) : bool :=
      end) a b.
 Definition oz_eqb (a b : option Z) : bool :=
   match a, b with None, None => true | Some x, Some y => Z.eqb x y | _, _ => false end.
+
+(* ---- (c) forced shutdown: _consume_queue(task_queue) while workers may still take tasks.
+   The consumer alternates `queue.empty()` (pc = false) and `queue.get(block=False)` (pc = true);
+   a worker step takes one queued task.  `blocking` = the get would block on an empty queue (not what the
+   code does: it catches Queue.Empty). *)
+Inductive dstep := DWorkerTake | DConsumer.
+Inductive dres := DDone | DStuck | DRunning (q : nat) (pc : bool).
+
+Fixpoint drain_run (blocking : bool) (q : nat) (pc : bool) (sched : list dstep) : dres :=
+  match sched with
+  | [] => DRunning q pc
+  | DWorkerTake :: r => drain_run blocking (Nat.pred q) pc r
+  | DConsumer :: r =>
+    if pc then
+      match q with
+      | S q' => drain_run blocking q' false r
+      | O => if blocking then DStuck else drain_run blocking O false r
+      end
+    else
+      match q with
+      | O => DDone
+      | S _ => drain_run blocking q true r
+      end
+  end.
+
+Fixpoint count_consumer (sched : list dstep) : nat :=
+  match sched with
+  | [] => O
+  | DConsumer :: r => S (count_consumer r)
+  | DWorkerTake :: r => count_consumer r
+  end.
